@@ -98,6 +98,20 @@ ERR_PROJECTS = {
                         "B/lib.gom": "package B\nfn fb(x: int32) -> int32 { false }\n"},
     "two_missing_packages": {"main.gom": "package Main\nimport P\nimport Q\nimport R\nfn main() { () }\n"},
     "two_missing_trait_methods": {"main.gom": "package Main\ntrait T { fn a(Self) -> int32; fn b(Self) -> int32; fn c(Self) -> int32; }\nstruct S {}\nstruct U {}\nimpl T for S { }\nimpl T for U { }\nfn main() { () }\n"},
+    # names that several declarations could answer to: whatever the compiler decides, it decides the same in every process
+    "variant_in_two_enums": {"main.gom": "package Main\nenum Shape { Circle, Square }\nenum Token { Circle, Dash }\ntrait D { fn d(Self) -> string; }\n"
+                                         "impl D for Shape { fn d(self: Shape) -> string { \"shape\" } }\nimpl D for Token { fn d(self: Token) -> string { \"token\" } }\n"
+                                         "fn main() -> unit {\n    let c = Circle;\n    let _ = string_println(D::d(c));\n    let n = match c { Circle => 1, _ => 0 };\n    ()\n}\n"},
+    "variant_in_three_enums_with_payload": {"main.gom": "package Main\nenum A1 { Mk(int32), Z1 }\nenum A2 { Mk(int32), Z2 }\nenum A3 { Mk(int32), Z3 }\n"
+                                                        "fn main() -> unit {\n    let v = Mk(1);\n    let w = Mk(2);\n    let n = match v { Mk(k) => k, _ => 0 };\n    let _ = string_println(int32_to_string(n));\n    ()\n}\n"},
+    "method_in_two_traits": {"main.gom": "package Main\ntrait TA { fn m(Self) -> int32; }\ntrait TB { fn m(Self) -> int32; }\nstruct S { v: int32 }\n"
+                                         "impl TA for S { fn m(self: S) -> int32 { 1 } }\nimpl TB for S { fn m(self: S) -> int32 { 2 } }\n"
+                                         "fn g[T: TA + TB](x: T) -> int32 { x.m() }\nfn main() -> unit {\n    let s = S { v: 0 };\n    let _ = string_println(int32_to_string(s.m() + g(s)));\n    ()\n}\n"},
+    "field_in_two_structs": {"main.gom": "package Main\nstruct P { x: int32, y: int32 }\nstruct Q { x: string, z: bool }\n"
+                                         "fn main() -> unit {\n    let f = |p| p.x;\n    let g = |q| q.z;\n    let _ = string_println(int32_to_string(f(P { x: 1, y: 2 })));\n    ()\n}\n"},
+    "same_names_in_two_imports": {"main.gom": "package Main\nimport A\nimport B\nfn main() -> unit {\n    let _ = string_println(int32_to_string(A::pick() + B::pick()));\n    let c = Red;\n    let m = mk();\n    ()\n}\n",
+                                  "A/lib.gom": "package A\nenum Col { Red, Blue }\nfn pick() -> int32 { 1 }\nfn mk() -> int32 { 1 }\n",
+                                  "B/lib.gom": "package B\nenum Hue { Red, Green }\nfn pick() -> int32 { 2 }\nfn mk() -> int32 { 2 }\n"},
     "unresolved_names": {"main.gom": "package Main\nfn main() { let _ = aa1; let _ = bb2; let _ = cc3; let _ = dd4; () }\n"},
     "dup_impls_across_packages": {"main.gom": "package Main\nimport A\nimport B\nimport C\nfn main() { () }\n",
                                   "A/lib.gom": "package A\ntrait T { fn m(Self) -> int32; }\n",
